@@ -250,8 +250,11 @@ func MutateWire(r *Rng, msg []byte, maxDup int) (out []byte, label string, ok bo
 }
 
 // WireMax bounds the encoded size a mutation may produce (operators compound: a repeated
-// field inside a repeated field ...).
-const WireMax = 4 << 20
+// field inside a repeated field ...). It is deliberately far below the 64 MiB slack of the
+// allocation bound: with inputs this small the meter can only fire on gross disproportion,
+// never on a handler whose (linear) cost per byte happens to lie near the bound's slope;
+// linear amplification on transport-sized messages is probed by directed cases instead.
+const WireMax = 512 << 10
 
 func wireSize(fs []*WireField) int {
 	n := 0
